@@ -429,3 +429,57 @@ func applyCase(line string) {
 		run.OracleFail(id, "apply-order", fmt.Sprintf("order/payload of the result differs: %s -> %s, want %s", line, obs, fmtList(want)), rp)
 	}
 }
+
+// T: buildReferrersTag on subject descriptors that share or differ in digest, media
+// type and size: the tag must depend on the digest only (class = index of the first
+// descriptor with the same tag).
+var tagDigests = []digest.Digest{dA, dB, dC, digest.NewDigestFromEncoded(digest.SHA512, strings.Repeat("ab", 64)), digest.NewDigestFromEncoded(digest.SHA512, strings.Repeat("cd", 64))}
+var tagMTs = []string{"", ocispec.MediaTypeImageManifest, ocispec.MediaTypeImageIndex, "application/vnd.docker.distribution.manifest.v2+json"}
+
+func genTagLine(r *common.Rand) string {
+	n := 2 + r.Intn(5)
+	s := make([]string, n)
+	for i := range s {
+		s[i] = fmt.Sprintf("%d:%d:%d", r.Intn(len(tagDigests)), r.Intn(len(tagMTs)), r.Intn(3)*7)
+	}
+	return "T " + strings.Join(s, ",")
+}
+
+func tagCase(line string) {
+	id := run.NewID()
+	f := strings.Fields(line)
+	if len(f) != 2 {
+		return
+	}
+	var tags []string
+	var digs []int
+	for _, x := range strings.Split(f[1], ",") {
+		var d, m, z int
+		fmt.Sscanf(x, "%d:%d:%d", &d, &m, &z)
+		tg, err := remote.VerifBuildReferrersTag(ocispec.Descriptor{MediaType: tagMTs[m%len(tagMTs)], Digest: tagDigests[d%len(tagDigests)], Size: int64(z)})
+		if err != nil {
+			tg = "ERR:" + err.Error()
+		}
+		tags = append(tags, tg)
+		digs = append(digs, d%len(tagDigests))
+	}
+	cls := make([]string, len(tags))
+	for i, t := range tags {
+		for j, u := range tags {
+			if u == t {
+				cls[i] = fmt.Sprint(j)
+				break
+			}
+		}
+	}
+	run.Count("T/tag")
+	run.Case(id, line, "T "+strings.Join(cls, ","))
+	for i := range tags {
+		for j := range tags {
+			if (tags[i] == tags[j]) != (digs[i] == digs[j]) || strings.HasPrefix(tags[i], "ERR:") {
+				run.OracleFail(id, "tag-not-by-digest", fmt.Sprintf("buildReferrersTag: descriptors %d and %d of %s give %q and %q", i, j, f[1], tags[i], tags[j]), map[string]any{"kind": "A", "line": line})
+				return
+			}
+		}
+	}
+}
